@@ -1613,6 +1613,12 @@ func (g *gen) packedRecords(arch string, d opDef, twins bool) {
 				}
 			}
 		}
+		// the old destination is part of the state (inactive lanes keep it; the twin needs it permuted)
+		if dl := c.Ops["d"]; dl.C >= 256 {
+			if _, set := c.V[dl.C-256]; !set {
+				g.outsideUnitDst(c, dl.C, 64)
+			}
+		}
 		g.cases = append(g.cases, c)
 		if twins {
 			perm := g.r.Perm(nLane)
